@@ -176,23 +176,40 @@ orc_x86_compiler_init (OrcCompiler *c)
           || strcmp (opcode->name, "ldreslinl") == 0
           || strcmp (opcode->name, "ldresnearb") == 0
           || strcmp (opcode->name, "ldresnearl") == 0) {
-        int j, k;
-
         c->vars[insn->src_args[0]].need_offset_reg = TRUE;
+      }
+    }
+  }
+}
 
-        /* The resampling rules advance the array pointer themselves, by a
-         * data dependent amount: no other instruction can address the same
-         * array through it. */
-        for (j = 0; j < c->n_insns; j++) {
-          if (j == i) continue;
-          for (k = 0; k < ORC_STATIC_OPCODE_N_SRC; k++) {
-            if (c->insns[j].opcode->src_size[k] == 0) continue;
-            if (c->insns[j].src_args[k] != insn->src_args[0]) continue;
-            orc_compiler_error (c, "array %s is resampled by %s and read again",
-                c->vars[insn->src_args[0]].name, opcode->name);
-            c->result = ORC_COMPILE_RESULT_UNKNOWN_COMPILE;
-          }
-        }
+/* The resampling rules advance the array pointer themselves, by a data
+ * dependent amount: no other instruction can address the same array through
+ * it.  Checked when code generation starts, not in orc_x86_compiler_init():
+ * by then the program has its code object, which emulation needs. */
+static void
+orc_x86_check_resampled_arrays (OrcCompiler *c)
+{
+  int i, j, k;
+
+  for (i = 0; i < c->n_insns; i++) {
+    OrcInstruction *insn = c->insns + i;
+    OrcStaticOpcode *opcode = insn->opcode;
+
+    if (strcmp (opcode->name, "ldreslinb") != 0
+        && strcmp (opcode->name, "ldreslinl") != 0
+        && strcmp (opcode->name, "ldresnearb") != 0
+        && strcmp (opcode->name, "ldresnearl") != 0)
+      continue;
+
+    for (j = 0; j < c->n_insns; j++) {
+      if (j == i) continue;
+      for (k = 0; k < ORC_STATIC_OPCODE_N_SRC; k++) {
+        if (c->insns[j].opcode->src_size[k] == 0) continue;
+        if (c->insns[j].src_args[k] != insn->src_args[0]) continue;
+        orc_compiler_error (c, "array %s is resampled by %s and read again",
+            c->vars[insn->src_args[0]].name, opcode->name);
+        c->result = ORC_COMPILE_RESULT_UNKNOWN_COMPILE;
+        return;
       }
     }
   }
@@ -872,6 +889,10 @@ orc_x86_compile (OrcCompiler *compiler)
   int is_aligned;
 
   t = compiler->target->target_data;
+
+  orc_x86_check_resampled_arrays (compiler);
+  if (compiler->error)
+    return;
   align_var = orc_x86_get_max_alignment_var (t, compiler);
   if (align_var < 0) {
     /* no array variable at all: the error has been recorded */
